@@ -690,4 +690,14 @@ var fingerprintList = []fpSpec{
 	{pkg: "internal/lossy", recv: "TokenBuffer", fn: "addPage"},              // extra_C11
 	{pkg: "internal/lossy", recv: "VP8Encoder", fn: "analysis"},              // extra_C11
 	{pkg: "internal/lossy", recv: "VP8Encoder", fn: "collectAllStats"},       // extra_C06, extra_C11
+	// added after seeded round 5 (rate-control loop deciding the final quantizers)
+	{pkg: "internal/lossy", fn: "getPSNR"},                                  // vp8ReconEnc
+	{pkg: "internal/lossy", fn: "qualityToCompression"},                     // vp8ReconEnc
+	{pkg: "internal/lossy", fn: "qualityToQIndex"},                          // vp8ReconEnc
+	{pkg: "internal/lossy", recv: "VP8Encoder", fn: "adjustQuantForTarget"}, // vp8ReconEnc, extra_C11
+	{pkg: "internal/lossy", recv: "VP8Encoder", fn: "initPassStats"},        // vp8ReconEnc, extra_C11
+	{pkg: "internal/lossy", recv: "VP8Encoder", fn: "initSegments"},         // vp8ReconEnc
+	{pkg: "internal/lossy", recv: "VP8Encoder", fn: "setupFilterStrength"},  // vp8ReconEnc
+	{pkg: "internal/lossy", recv: "VP8Encoder", fn: "statLoop"},             // vp8ReconEnc, extra_C11
+	{pkg: "internal/lossy", recv: "passStats", fn: "computeNextQ"},          // vp8ReconEnc, extra_C11
 }
